@@ -162,6 +162,20 @@ class _Expand(ast.NodeTransformer):
     def visit_Lambda(self, node):
         return node
 
+    def visit_Call(self, node):
+        self.generic_visit(node)
+        if any(k.arg is None and isinstance(k.value, ast.Dict) and all(
+                x is not None and isinstance(x, ast.Constant) and isinstance(x.value, str) for x in k.value.keys) for k in node.keywords):
+            kws = []
+            for k in node.keywords:
+                if k.arg is None and isinstance(k.value, ast.Dict) and all(
+                        x is not None and isinstance(x, ast.Constant) and isinstance(x.value, str) for x in k.value.keys):
+                    kws.extend(ast.keyword(arg=x.value, value=v) for x, v in zip(k.value.keys, k.value.values))
+                else:
+                    kws.append(k)
+            node.keywords = kws
+        return node
+
     def _comp(self, node):
         # comprehension targets shadow
         bound = {n.id for g in node.generators for n in ast.walk(g.target) if isinstance(n, ast.Name)}
@@ -217,6 +231,19 @@ class Summariser:
         self.pure = set(pure)
         self.max_paths = max_paths
         self.list_vars = self._list_vars() if list_vars is None else set(list_vars)
+        # locals that are only keyword-argument bundles (`**name`, `name["k"] = v`, `"k" in name`): treated as values
+        splat = {k.value.id for c in ast.walk(fn) if isinstance(c, ast.Call) and not (isinstance(c.func, ast.Name) and c.func.id == "tpm_type")
+                 for k in c.keywords if k.arg is None and isinstance(k.value, ast.Name)}
+        other = set()
+        for n in ast.walk(fn):
+            if isinstance(n, ast.Name) and n.id in splat and isinstance(n.ctx, ast.Load):
+                p_ = getattr(n, "_parent", None)
+                ok = isinstance(p_, ast.keyword) and p_.arg is None
+                ok = ok or (isinstance(p_, ast.Subscript) and p_.value is n and isinstance(p_.ctx, ast.Store) and isinstance(p_.slice, ast.Constant))
+                ok = ok or (isinstance(p_, ast.Compare) and n in p_.comparators and isinstance(p_.ops[0], (ast.In, ast.NotIn)))
+                if not ok:
+                    other.add(n.id)
+        self.kwdicts = splat - other
 
     # names only ever bound to list displays / list comprehensions / list(...) in this function
     def _list_vars(self):
@@ -345,6 +372,10 @@ class Summariser:
                     return same if isinstance(op, ast.Is) else not same
             if isinstance(op, (ast.Eq, ast.NotEq)) and isinstance(l, ast.Constant) and isinstance(r, ast.Constant):
                 return (l.value == r.value) if isinstance(op, ast.Eq) else (l.value != r.value)
+            if isinstance(op, (ast.In, ast.NotIn)) and isinstance(l, ast.Constant) and isinstance(r, ast.Dict) \
+                    and all(x is not None and isinstance(x, ast.Constant) for x in r.keys):
+                hit = l.value in [x.value for x in r.keys]
+                return hit if isinstance(op, ast.In) else not hit
             if isinstance(op, (ast.In, ast.NotIn)) and isinstance(l, ast.Constant) and isinstance(r, (ast.Tuple, ast.List, ast.Set)) \
                     and all(isinstance(x, ast.Constant) for x in r.elts):
                 hit = l.value in [x.value for x in r.elts]
@@ -455,6 +486,10 @@ class Summariser:
     def bind(self, target, value, p, node):
         """value: expanded expression or None (unknown)"""
         if isinstance(target, ast.Name):
+            if value is not None and target.id in self.kwdicts and isinstance(value, ast.Dict) \
+                    and all(k is not None and isinstance(k, ast.Constant) and isinstance(k.value, str) for k in value.keys):
+                p.env[target.id] = value  # a keyword bundle: a value, spelled out at the call
+                return
             if value is not None and _mutable_display(value):
                 # a fresh mutable container: the name denotes an object with identity, never substitute it
                 p.env[target.id] = None
@@ -490,6 +525,15 @@ class Summariser:
                     self.bind(t, ast.Subscript(value=value, slice=ast.Constant(value=i), ctx=ast.Load()), p, node)
                 else:
                     self.bind(t, None, p, node)
+            return
+        if isinstance(target, ast.Subscript) and isinstance(target.value, ast.Name) and target.value.id in self.kwdicts \
+                and isinstance(p.env.get(target.value.id), ast.Dict) and isinstance(target.slice, ast.Constant):
+            old = p.env[target.value.id]
+            pairs = [(k, v) for k, v in zip(old.keys, old.values) if k.value != target.slice.value]
+            new = ast.Dict(keys=[clone(k) for k, _ in pairs] + [ast.Constant(value=target.slice.value)],
+                           values=[clone(v) for _, v in pairs] + [value if value is not None else ast.Constant(value=...)])
+            ast.fix_missing_locations(new)
+            p.env[target.value.id] = new
             return
         if isinstance(target, (ast.Subscript, ast.Attribute)):
             tgt = self.expand(target, p)
